@@ -9,7 +9,7 @@ Definition core_eq (w w' : world) : Prop :=
 Lemma InvS_frame w w' : core_eq w w' -> InvS w -> InvS w'.
 Proof.
   intros (E1&E2&E3&E4&E5&E6&E7&E8) [A B C D F G H I J].
-  constructor; rewrite ?E1, ?E2, ?E3, ?E4, ?E5, ?E6, ?E7, ?E8; assumption.
+  constructor; unfold status_ok in *; rewrite ?E1, ?E2, ?E3, ?E4, ?E5, ?E6, ?E7, ?E8; assumption.
 Qed.
 
 Lemma evolves_core w w' : core_eq w w' -> evolves w w'.
@@ -31,7 +31,7 @@ Definition side_eq (w w' : world) : Prop :=
 
 Lemma exp_update_inv w e e' :
   InvS w -> w_exp w = Some e ->
-  e_max e' = e_max e -> e_deleting e' = false -> e_rv e' = S (e_rv e) -> counts_nonneg (es_counts (e_st e')) ->
+  e_max e' = e_max e -> e_deleting e' = false -> e_rv e' = S (e_rv e) -> status_ok w (e_st e') ->
   InvS (set_exp w (Some e')) /\ evolves w (set_exp w (Some e')).
 Proof.
   intros [A B C D F G H I J] He M Dl R NN.
@@ -96,6 +96,8 @@ Proof.
     - apply IH. intros x Ix. apply P. now right. }
   split.
   - constructor; cbn; auto.
+    + destruct B as (e0&ce&He0&Hce&L0&D0&D1&(N0&N0')&(N1&N1')). exists e0, ce. unfold status_ok. cbn. rewrite upd_trial_length.
+      split; [exact He0|]. split; [exact Hce|]. split; [exact L0|]. split; [exact D0|]. split; [exact D1|]. split; split; assumption.
     + now rewrite upd_trial_names.
     + rewrite upd_trial_map. apply Forall_forall. intros x Hx. apply in_map_iff in Hx as (y&<-&Iy).
       rewrite Forall_forall in D. destruct (Nat.eqb (t_name y) n); [rewrite Fd|]; auto.
@@ -123,13 +125,15 @@ Lemma trial_create_inv w n s :
 Proof.
   intros [A B C D F G H I J] Hs In Fn w1. split.
   - constructor; cbn; auto.
+    + destruct B as (e0&ce&He0&Hce&L0&D0&D1&(N0&N0')&(N1&N1')). exists e0, ce. unfold status_ok. cbn. rewrite app_length. cbn.
+      split; [exact He0|]. split; [exact Hce|]. split; [exact L0|]. split; [exact D0|]. split; [exact D1|]. split; split; (assumption || lia).
     + unfold names. rewrite map_app. cbn. apply NoDup_snoc; [exact C|]. now apply find_trial_none.
     + apply Forall_app. split; [exact D|]. repeat constructor.
     + now apply tlag_app.
     + rewrite Hs in *. destruct H as (W0&C0&R0&In0&Hc). repeat split; auto.
       unfold names. rewrite map_app. cbn. intros x Hx. apply in_app_or in Hx as [Hx|[<-|[]]]; auto.
     + destruct I as (I1&I2&I3). repeat split; auto. rewrite completed_app. unfold completed_n at 2. cbn. lia.
-    + apply Forall_app. split; [exact J|]. constructor; [|constructor]. unfold tgood, good_conds. cbn. discriminate.
+    + apply Forall_app. split; [exact J|]. constructor; [|constructor]. unfold tgood, good_conds. cbn. split; discriminate.
   - constructor; cbn; auto; try lia.
     + intros e He. exists e. auto using ele_refl.
     + intros e He. exists e. auto using ele_refl.
